@@ -34,9 +34,12 @@ theorem pyEntry_ok (nd : Nd α) (g : Option Bool) (o : Out α) (ho : pyEntry nd 
 theorem cEntry_ok (nd : Nd α) (g : Option Bool) (o : Out α) (ho : cEntry nd g = .ok o) :
     o = count nd.data (g.getD false) := by
   unfold cEntry at ho
-  by_cases hc : (if nd.ndim = 1 then nd.data.length else 0) < 2
-  · simp only [hc, if_true] at ho; cases ho
-  · simp only [hc, if_false] at ho; exact (Except.ok.inj ho).symm
+  by_cases hs : (!nd.safe) = true
+  · simp only [hs, if_true] at ho; cases ho
+  · simp only [hs] at ho
+    by_cases hc : (if nd.ndim = 1 then nd.data.length else 0) < 2
+    · simp only [hc, if_true] at ho; cases ho
+    · simp only [hc, if_false] at ho; exact (Except.ok.inj ho).symm
 
 theorem implEntry_ok (i : Impl) (nd : Nd α) (g : Option Bool) (o : Out α)
     (ho : implEntry i nd g = .ok o) : o = count nd.data (g.getD false) := by
